@@ -18,6 +18,14 @@ pub fn vrefuse() -> !
     panic!()
 }
 
+/// the same panic inside a function whose contract says `@norefuse`: reaching it is an obligation.
+#[verifier::external_body]
+pub fn vrefuse_strict() -> !
+    requires false,
+{
+    panic!()
+}
+
 /// `assert!(c, ..)`: the condition is an obligation.
 pub fn vassert(c: bool)
     requires c,
@@ -142,6 +150,16 @@ pub uninterp spec fn dedup_post<T>(old: Seq<T>, new: Seq<T>) -> bool;
 pub uninterp spec fn contains_post<T>(s: Seq<T>, x: T, r: bool) -> bool;
 pub uninterp spec fn extend_post<T, I>(old: Seq<T>, it: I, new: Seq<T>) -> bool;
 
+/// R16: `(a..b).collect::<Vec<usize>>()` — the integers a, a+1, .., b-1 in order
+#[verifier::external_body]
+pub fn range_collect(a: usize, b: usize) -> (r: Vec<usize>)
+    ensures
+        r@.len() == (if b >= a { b - a } else { 0 }),
+        forall|i: int| 0 <= i < r@.len() ==> #[trigger] r@[i] == a + i,
+{
+    (a..b).collect()
+}
+
 /// `<[T]>::to_vec` — assumes element `clone` is the identity (used at usize and G1Projective only).
 pub assume_specification<T: Clone>[ <[T]>::to_vec ](s: &[T]) -> (r: Vec<T>)
     ensures
@@ -250,7 +268,20 @@ pub fn slice_get_or_empty<'a, T>(s: &'a [T], a: usize, b: usize) -> (r: &'a [T])
 pub trait Refuse<T>: Sized {
     spec fn refuse_ok(self, r: T) -> bool;
 
+    spec fn can_unwrap(self) -> bool;
+
     fn unwrap_refuse(self) -> (r: T)
+        ensures self.refuse_ok(r),
+    ;
+
+    /// `@norefuse` functions: the unwrap must succeed
+    fn unwrap_strict(self) -> (r: T)
+        requires self.can_unwrap(),
+        ensures self.refuse_ok(r),
+    ;
+
+    fn expect_strict(self, msg: &str) -> (r: T)
+        requires self.can_unwrap(),
         ensures self.refuse_ok(r),
     ;
 
@@ -262,6 +293,14 @@ pub trait Refuse<T>: Sized {
 impl<T> Refuse<T> for Option<T> {
     open spec fn refuse_ok(self, r: T) -> bool { self is Some && r == self->0 }
 
+    open spec fn can_unwrap(self) -> bool { self is Some }
+
+    #[verifier::external_body]
+    fn unwrap_strict(self) -> (r: T) { self.unwrap() }
+
+    #[verifier::external_body]
+    fn expect_strict(self, msg: &str) -> (r: T) { self.expect(msg) }
+
     #[verifier::external_body]
     fn unwrap_refuse(self) -> (r: T) { self.unwrap() }
 
@@ -271,6 +310,14 @@ impl<T> Refuse<T> for Option<T> {
 
 impl<T, E> Refuse<T> for Result<T, E> {
     open spec fn refuse_ok(self, r: T) -> bool { self is Ok && r == self->Ok_0 }
+
+    open spec fn can_unwrap(self) -> bool { self is Ok }
+
+    #[verifier::external_body]
+    fn unwrap_strict(self) -> (r: T) { unimplemented!() }
+
+    #[verifier::external_body]
+    fn expect_strict(self, msg: &str) -> (r: T) { unimplemented!() }
 
     #[verifier::external_body]
     fn unwrap_refuse(self) -> (r: T) { unimplemented!() }
